@@ -146,13 +146,13 @@ static bool callback_body(void) {
     return true;
 }
 
-static bool cb_start(m_mod_t *m) { printf("INVOKE on_start %s\n", htok(m)); return callback_body(); }
-static bool cb_eval(m_mod_t *m) { printf("INVOKE on_eval %s\n", htok(m)); return callback_body(); }
-static void cb_stop(m_mod_t *m) { printf("INVOKE on_stop %s\n", htok(m)); callback_body(); }
+static bool cb_start(m_mod_t *m) { printf("INVOKE on_start %s:%c\n", htok(m), stl(m)); return callback_body(); }
+static bool cb_eval(m_mod_t *m) { printf("INVOKE on_eval %s:%c\n", htok(m), stl(m)); return callback_body(); }
+static void cb_stop(m_mod_t *m) { printf("INVOKE on_stop %s:%c\n", htok(m), stl(m)); callback_body(); }
 
 static void tramp_evt(int k, m_mod_t *m, const m_queue_t *const evts) {
     frame_t fr; fr.n = 0;
-    printf("INVOKE on_evt#%d %s", k, htok(m));
+    printf("INVOKE on_evt#%d %s:%c", k, htok(m), stl(m));
     m_itr_foreach(evts, {
         m_evt_t *e = m_itr_get(m_itr);
         if (fr.n < 128) fr.ev[fr.n++] = e;
